@@ -42,16 +42,23 @@ type hrWorker struct {
 	lines chan string
 }
 
-func startWorker(t *testing.T) *hrWorker {
+func startWorker(t *testing.T) *hrWorker { return startWorkerBin(t, os.Args[0], nil) }
+
+// startWorkerBin starts the worker from the given test binary; stderr (nil = inherit) receives the
+// child's standard error.
+func startWorkerBin(t *testing.T, bin string, stderr io.Writer) *hrWorker {
 	pr, pw, err := os.Pipe()
 	if err != nil {
 		t.Fatalf("pipe: %v", err)
 	}
-	cmd := exec.Command(os.Args[0], "-test.run", "^TestHashringWorker$", "-test.timeout", "0")
+	cmd := exec.Command(bin, "-test.run", "^TestHashringWorker$", "-test.timeout", "0")
 	cmd.Env = append(os.Environ(), "HASHRING_WORKER=1")
 	cmd.ExtraFiles = []*os.File{pw} // fd 3 in the child
 	cmd.Stdout = io.Discard
 	cmd.Stderr = os.Stderr
+	if stderr != nil {
+		cmd.Stderr = stderr
+	}
 	in, err := cmd.StdinPipe()
 	if err != nil {
 		t.Fatalf("stdin pipe: %v", err)
